@@ -51,6 +51,14 @@ Proof. apply Forall_map. Qed.
 Lemma fits_Z n z : fits n z = true -> (- 2 ^ (Z.of_N n - 1) <= z < 2 ^ (Z.of_N n - 1))%Z /\ 1 <= n.
 Proof. intros H. apply fits_range in H. tauto. Qed.
 
+Lemma abs_parity s : (Z.abs s mod 2 = s mod 2)%Z.
+Proof.
+  destruct (Z_lt_le_dec s 0) as [Neg|Pos]; [|rewrite Z.abs_eq by lia; reflexivity].
+  rewrite Z.abs_neq by lia.
+  pose proof (Z.div_mod s 2 ltac:(lia)). pose proof (Z.mod_pos_bound s 2 ltac:(lia)).
+  pose proof (Z.div_mod (- s) 2 ltac:(lia)). pose proof (Z.mod_pos_bound (- s) 2 ltac:(lia)). lia.
+Qed.
+
 Section Narrow.
   (* bps <= 31: side channel has bps+1 <= 32 bits, all arithmetic in i32 *)
   Variable bps : N.
@@ -78,8 +86,8 @@ Section Narrow.
     fits bps m = true -> fits (bps + 1) s = true ->
     let sum := (m * 2 + Z.abs s mod 2)%Z in
     fits bps ((sum + s) / 2) = true -> fits bps ((sum - s) / 2) = true ->
-    (m2 <- arith_s Release 32 (m * 2) ;; ab <- abs_s Release 32 s ;;
-     sm <- arith_s Release 32 (m2 + Z.rem ab 2) ;;
+    (m2 <- arith_s Release 32 (m * 2) ;;
+     sm <- arith_s Release 32 (m2 + s mod 2) ;;
      a1 <- arith_s Release 32 (sm + s) ;; b1 <- arith_s Release 32 (sm - s) ;;
      Ok ((a1 / 2)%Z, (b1 / 2)%Z)) = Ok (((sum + s) / 2)%Z, ((sum - s) / 2)%Z).
   Proof.
@@ -89,13 +97,11 @@ Section Narrow.
     fold B in Hm, HL, HR. rewrite B1 in Hs. pose proof B30 as HB. pose proof Bpos as HBp.
     assert (P31 : (2 ^ (32 - 1) = 2 * 2 ^ 30)%Z) by reflexivity.
     assert (Hpar : (0 <= Z.abs s mod 2 < 2)%Z) by (apply Z.mod_pos_bound; lia).
-    assert (Erem : Z.rem (Z.abs s) 2 = (Z.abs s mod 2)%Z) by (apply Z.rem_mod_nonneg; lia).
-    (* floor-division bounds *)
+    pose proof (abs_parity s) as Epar.
     pose proof (Z.div_mod (sum + s) 2 ltac:(lia)) as D1. pose proof (Z.mod_pos_bound (sum + s) 2 ltac:(lia)) as M1.
     pose proof (Z.div_mod (sum - s) 2 ltac:(lia)) as D2. pose proof (Z.mod_pos_bound (sum - s) 2 ltac:(lia)) as M2.
     rewrite arith32 by (apply in_s_spec; rewrite P31; lia). cbn [bind].
-    unfold abs_s. rewrite arith32 by (apply in_s_spec; rewrite P31; lia). cbn [bind].
-    rewrite Erem. fold sum.
+    rewrite <- Epar. fold sum.
     rewrite arith32 by (apply in_s_spec; rewrite P31; unfold sum; lia). cbn [bind].
     rewrite arith32 by (apply in_s_spec; rewrite P31; lia). cbn [bind].
     rewrite arith32 by (apply in_s_spec; rewrite P31; lia). cbn [bind]. reflexivity.
@@ -125,8 +131,8 @@ Section Wide.
     fits 32 m = true -> fits 33 s = true ->
     let sum := (m * 2 + Z.abs s mod 2)%Z in
     fits 32 ((sum + s) / 2) = true -> fits 32 ((sum - s) / 2) = true ->
-    (m2 <- arith_s Release 64 (m * 2) ;; ab <- abs_s Release 64 s ;;
-     sm <- arith_s Release 64 (m2 + Z.rem ab 2) ;;
+    (m2 <- arith_s Release 64 (m * 2) ;;
+     sm <- arith_s Release 64 (m2 + s mod 2) ;;
      a1 <- arith_s Release 64 (sm + s) ;; b1 <- arith_s Release 64 (sm - s) ;;
      Ok (as_i32 (a1 / 2), as_i32 (b1 / 2))%Z) = Ok (((sum + s) / 2)%Z, ((sum - s) / 2)%Z).
   Proof.
@@ -136,10 +142,9 @@ Section Wide.
     change (2 ^ (Z.of_N 32 - 1))%Z with 2147483648%Z in *. change (2 ^ (Z.of_N 33 - 1))%Z with 4294967296%Z in *.
     assert (P63 : (2 ^ (64 - 1) = 9223372036854775808)%Z) by reflexivity.
     assert (Hpar : (0 <= Z.abs s mod 2 < 2)%Z) by (apply Z.mod_pos_bound; lia).
-    assert (Erem : Z.rem (Z.abs s) 2 = (Z.abs s mod 2)%Z) by (apply Z.rem_mod_nonneg; lia).
+    pose proof (abs_parity s) as Epar.
     rewrite arith64 by (apply in_s_spec; rewrite P63; lia). cbn [bind].
-    unfold abs_s. rewrite arith64 by (apply in_s_spec; rewrite P63; lia). cbn [bind].
-    rewrite Erem. fold sum.
+    rewrite <- Epar. fold sum.
     rewrite arith64 by (apply in_s_spec; rewrite P63; unfold sum; lia). cbn [bind].
     rewrite arith64 by (apply in_s_spec; rewrite P63; unfold sum; lia). cbn [bind].
     rewrite arith64 by (apply in_s_spec; rewrite P63; unfold sum; lia). cbn [bind].
@@ -217,7 +222,7 @@ Theorem dec_subframes_agree h subs :
   length subs = N.to_nat (assign_channels (h_assign h)) ->
   wf_subframes h 0 subs = true -> spec_subframes h 0 subs = true ->
   forallb (forallb (fits (h_bps h))) (sem_channels (h_assign h) (map (sem_subframe (h_bs h)) subs)) = true ->
-  encodes (dec_subframes Release h) (write_subframes (h_assign h) (h_bps h) 0 subs)
+  encodes (dec_subframes h) (write_subframes (h_assign h) (h_bps h) 0 subs)
           (sem_channels (h_assign h) (map (sem_subframe (h_bs h)) subs)).
 Proof.
   intros Ha Hb1 Hb32 Hlen Hwf Hsp Hout. unfold dec_subframes.
